@@ -530,6 +530,11 @@ func (L *layoutCtx) segs(v ssa.Value) [][]Seg {
 		if x.Value == nil {
 			return [][]Seg{{}}
 		}
+		// a string constant appended byte-wise (`append(b, "INFO"...)`)
+		if x.Value.Kind() == constant.String {
+			bs := []byte(constant.StringVal(x.Value))
+			return one(Seg{Kind: "const", W: len(bs), Bytes: bs})
+		}
 	case *ssa.Parameter:
 		return one(Seg{Kind: "var", W: -1, Name: "param:" + x.Name()})
 	}
@@ -728,6 +733,10 @@ func matchSeg(got Seg, want specSeg, prefix string) (bool, string) {
 		}
 	case want.Field != "":
 		if got.Kind == "field" && got.W == want.W && got.Name == name(want.Field) {
+			return true, ""
+		}
+		// a one-byte field appended as a value (`append(b, t.Flags)`) is that field
+		if got.Kind == "valof" && got.W == 1 && want.W == 1 && got.Name == name(want.Field) {
 			return true, ""
 		}
 	case want.Value == "len":
@@ -1655,4 +1664,59 @@ func (R *Run) ruleShiftEncoding() {
 		}
 	}
 	R.note(fmt.Sprintf("%d integers written byte by byte with shifts.", n))
+}
+
+// encoderLayout: the segments that (*typ).Read emits (one alternative), extracted as the layout rule does.
+func (P *Prog) encoderLayout(typ string) ([]Seg, bool) {
+	fn := P.fn("(*" + typ + ").Read")
+	if fn == nil || len(fn.Params) < 2 {
+		return nil, false
+	}
+	var buf ssa.Value
+	var emit *ssa.Call
+	for _, ci := range callsIn(fn) {
+		if c, ok := ci.(*ssa.Call); ok && calleeName(&c.Call) == "builtin.copy" && c.Call.Args[0] == ssa.Value(fn.Params[1]) {
+			emit = c
+			src := c.Call.Args[1]
+			if phi, isPhi := src.(*ssa.Phi); isPhi {
+				var only ssa.Value
+				for _, e := range phi.Edges {
+					if isNilConst(e) {
+						continue
+					}
+					if only != nil && only != e {
+						only = nil
+						break
+					}
+					only = e
+				}
+				if only != nil {
+					src = only
+				}
+			}
+			if sl, ok := src.(*ssa.Slice); ok {
+				buf = sl.X
+			} else {
+				buf = src
+			}
+		}
+	}
+	if buf == nil {
+		return nil, false
+	}
+	L := &layoutCtx{P: P, seen: map[ssa.Value]bool{}}
+	if bi, ok := stripSlice(buf).(ssa.Instruction); ok && bi.Parent() == fn {
+		L.use = emit.Block()
+	}
+	alts := L.segs(buf)
+	if len(alts) != 1 {
+		return nil, false
+	}
+	var out []Seg
+	for _, g := range alts[0] {
+		if g.Kind != "when" {
+			out = append(out, g)
+		}
+	}
+	return out, true
 }
